@@ -41,6 +41,12 @@ LEVEL_TEXT = (
 )
 BUDGET = {"quick": 150, "thorough": 1500}
 
+# mechanisms after which a history keeps being observed (each is reported once per case; see the final report)
+CONTINUE_SIGS = {
+  "lockstep:countdown:velocity_tested_after_integration",
+  "lockstep:awake_set:velocity_tested_after_integration",
+  "cycle:rebuilt_while_asleep:sleeping_tree_in_island",
+}
 MINAWAKE = int(mujoco.mjMINAWAKE)
 K_AWAKE = -(1 + MINAWAKE)
 NWORLD = 4
@@ -297,6 +303,7 @@ class WorldMon:
     self.nslept = 0
     self.nwoke = 0
     self.wake_causes = set()
+    self.retired = False
 
   def step(self, rec, w, pre, mid, post, split, ctx):
     topo = self.topo
@@ -307,8 +314,26 @@ class WorldMon:
     cyc0, ok0 = _isl.cycles_of(A0)
     cyc1, ok1 = _isl.cycles_of(A1)
     rec.check()
+    self.retired = False
+    if not ok0:
+      self.retired = True
+      return
+    rebuilt = [int(t) for t in np.nonzero(S0 & S1 & (A0 != A1))[0]]
+    if rebuilt:
+      isl_now = mid["tree_island"][w] if mid is not None else None
+      if isl_now is not None and all(isl_now[t] >= 0 for t in rebuilt):
+        rec.viol(
+          "cycle:rebuilt_while_asleep:sleeping_tree_in_island",
+          f"trees {rebuilt} stayed asleep but their tree_asleep pointers were rewritten {A0.tolist()} -> {A1.tolist()}: the sleeping trees still own constraint rows (tree_island {isl_now.tolist()}) and sleep() rebuilt a cycle over that island only; well-formed cycles afterwards: {ok1} {ctx}",
+          trees=rebuilt,
+        )
+      else:
+        rec.viol("cycle:changed_while_asleep", f"trees {rebuilt} stayed asleep but tree_asleep changed {A0.tolist()} -> {A1.tolist()} {ctx}")
+      self.retired = True
+      return
     if not ok1:
-      rec.viol("cycle:malformed", f"tree_asleep {A1.tolist()} does not decompose into cycles {ctx}")
+      rec.viol("cycle:malformed", f"tree_asleep {A1.tolist()} does not decompose into cycles (before {A0.tolist()}) {ctx}")
+      self.retired = True
       return
     if split:
       Am = mid["tree_asleep"][w]
@@ -425,10 +450,6 @@ class WorldMon:
         short = [int(t) for t in c if self.quiet[t] < MINAWAKE - 1]
         if short:
           rec.viol("sleep:too_early", f"cycle {sorted(c)} fell asleep but trees {short} were quiet only {[int(self.quiet[t]) for t in short]} consecutive steps (< {MINAWAKE}) {ctx}", trees=short)
-    for t in np.nonzero(S0 & S1)[0]:
-      rec.check()
-      if A0[t] != A1[t]:
-        rec.viol("cycle:changed_while_asleep", f"tree {t} stayed asleep but tree_asleep changed {A0[t]} -> {A1[t]} {ctx}")
     # awake countdown stays in range
     rec.check()
     if np.any((A1 < K_AWAKE)):
@@ -512,9 +533,14 @@ def lockstep(rec, topo, mjd, pre, mid, post, w, ctx, iterations):
         # (contact solver), not a sleep-semantics difference -> belongs to C06/C08/C38
         rec.count("lockstep_ungated_velocity_side")
         continue
+      if topo.can_sleep(t, pre["qvel"][w], qf, xf)[0] != topo.can_sleep(t, qw, qf, xf)[0]:
+        sig = "lockstep:countdown:velocity_tested_after_integration"
+        why = " -- the tree's pre-step velocity and post-step velocity are on different sides of sleep_tolerance: MuJoCo tests the velocity before integrating, MJWarp after"
+      else:
+        sig, why = "lockstep:countdown", ""
       rec.viol(
-        "lockstep:countdown",
-        f"tree {t} countdown {A1[t]} vs MuJoCo {B1[t]} after one step from the same state (before: {pre['tree_asleep'][w].tolist()}, after forward: {mid['tree_asleep'][w].tolist() if mid else None}) {ctx}",
+        sig,
+        f"tree {t} countdown {A1[t]} vs MuJoCo {B1[t]} after one step from the same state (before: {pre['tree_asleep'][w].tolist()}, after forward: {mid['tree_asleep'][w].tolist() if mid else None}){why} {ctx}",
         tree=int(t), mjw=A1.tolist(), mj=B1.tolist(),
       )
     return
@@ -534,9 +560,18 @@ def lockstep(rec, topo, mjd, pre, mid, post, w, ctx, iterations):
     if any(topo.can_sleep(u, qw, qf, xf)[0] != topo.can_sleep(u, qm, qf, xf)[0] for u in both_awake):
       rec.count("lockstep_ungated_velocity_side")
       return
+  qf, xf = pre["qfrc_applied"][w], pre["xfrc_applied"][w]
+  sig, why = "lockstep:awake_set", ""
+  for t in diff:
+    isl = mid["tree_island"][w] if mid is not None else None
+    mates = [int(u) for u in np.nonzero(isl == isl[t])[0]] if isl is not None and isl[t] >= 0 else [int(t)]
+    awake_q = qm if Sw[t] else qw
+    if any(topo.can_sleep(u, pre["qvel"][w], qf, xf)[0] != topo.can_sleep(u, awake_q, qf, xf)[0] for u in mates):
+      sig = "lockstep:awake_set:velocity_tested_after_integration"
+      why = " -- pre-step and post-step velocities of the island are on different sides of sleep_tolerance: MuJoCo tests the velocity before integrating, MJWarp after"
   rec.viol(
-    "lockstep:awake_set",
-    f"awake set after one step differs from MuJoCo: tree_asleep {A1.tolist()} vs {B1.tolist()} (before: {pre['tree_asleep'][w].tolist()}) {ctx}",
+    sig,
+    f"awake set after one step differs from MuJoCo: tree_asleep {A1.tolist()} vs {B1.tolist()} (before: {pre['tree_asleep'][w].tolist()}){why} {ctx}",
     mjw=A1.tolist(), mj=B1.tolist(), before=pre["tree_asleep"][w].tolist(),
   )
 
@@ -620,13 +655,18 @@ def run_hist(case, rec):
       rec.inconcl("state became non-finite")
       break
     for w in range(NWORLD):
+      if mons[w].retired:
+        continue
       ctx = f"[world {w} step {s}]"
-      mons[w].step(rec, w, pre, mid if split else None, post, split, ctx)
+      mons[w].step(rec, w, pre, mid, post, split, ctx)
+      if mons[w].retired:
+        rec.count("worlds_retired_after_cycle_corruption")
+        continue
       check_derived(rec, topo, post, w, ctx)
       if split:
         check_derived(rec, topo, {"tree_asleep": mid["tree_asleep"], "tree_awake": mid["tree_awake"]}, w, ctx + " after forward")
       lockstep(rec, topo, mjd, pre, mid if split else {**mid, "tree_asleep": post["tree_asleep"]}, post, w, ctx, iterations)
-    if rec.violations:
+    if any(v["sig"] not in CONTINUE_SIGS for v in rec.violations) or all(mn.retired for mn in mons):
       break
   nslept = sum(mn.nslept for mn in mons)
   nwoke = sum(mn.nwoke for mn in mons)
@@ -655,7 +695,7 @@ def rollout(mjw, sched, m, d, mjm, topo, ev, steps, integ, mode, key, kernel_fil
   return out
 
 
-def compare_rollouts(rec, topo, ref, alt, label):
+def compare_rollouts(rec, topo, ref, alt, label, sig="sched:awake_set"):
   """First-divergence comparison of two schedules. Returns True if judged equal throughout."""
   nworld = ref[0][0].shape[0]
   for w in range(nworld):
@@ -677,15 +717,15 @@ def compare_rollouts(rec, topo, ref, alt, label):
         traj_equal = s == 0 or (np.array_equal(ref[s - 1][1][w], alt[s - 1][1][w]) and np.array_equal(prev_v, prev_v1))
         if traj_equal:
           rec.viol(
-            f"sched:{label}:awake_set",
+            sig,
             f"awake set depends on task order: step {s} world {w} tree_asleep {a0[w].tolist()} (identity) vs {a1[w].tolist()} ({label}); trajectories were bit-identical up to the previous step; previous tree_asleep {ref[s - 1][0][w].tolist() if s else None} vs {alt[s - 1][0][w].tolist() if s else None}",
             step=s, world=w, trees=diff.tolist(),
           )
         else:
           rec.count(f"{label}:awake_set_differs_after_roundoff_divergence")
         break
-      r = cmp.first_divergence(rec, "qpos", q0[w], q1[w], sig_prefix=f"sched:{label}:", ctx=f"world {w} step {s}")
-      r2 = cmp.first_divergence(rec, "qvel", v0[w], v1[w], sig_prefix=f"sched:{label}:", ctx=f"world {w} step {s}")
+      r = cmp.first_divergence(rec, "qpos", q0[w], q1[w], sig_prefix="sched:", ctx=f"world {w} step {s} ({label})")
+      r2 = cmp.first_divergence(rec, "qvel", v0[w], v1[w], sig_prefix="sched:", ctx=f"world {w} step {s} ({label})")
       rec.count(f"{label}:first_divergence_{r}")
       break
     else:
@@ -757,7 +797,7 @@ def run_wakeorder(case, rec):
   rng = np.random.default_rng(case["seed"])
   variant = ("touching", "apart")[case["seed"] % 2]
   jac = ("dense", "sparse")[(case["seed"] // 2) % 2]
-  bx = 0.2 if variant == "touching" else 0.6
+  bx = 0.198 if variant == "touching" else 0.6
   xml = WAKEORDER_XML.format(jac=jac, bx=bx, yx=bx + 0.195, extra="")
   mjm = mujoco.MjModel.from_xml_string(xml)
   m = mw.put_model(mjm)
@@ -786,7 +826,7 @@ def run_wakeorder(case, rec):
   rec.cover("wakeorder_variant:" + variant, 1)
   rec.cover("wakeorder_cycle_woke_by_two_contacts", int(woke))
   for label in ("reverse", "random", "rotate"):
-    compare_rollouts(rec, topo, res["identity"], res[label], "wakeorder_" + label)
+    compare_rollouts(rec, topo, res["identity"], res[label], "wakeorder_" + label, sig="sched:wake_collision_order:awake_set")
   if woke:
     rec.nontrivial("wakeorder", variant, jac, cx, cy)
   rec.sample = {"kind": "wakeorder", "variant": variant, "countdown_X": cx, "countdown_Y": cy, "after_first_step_identity": res["identity"][0][0][0].tolist(), "after_first_step_reverse": res["reverse"][0][0][0].tolist()}
